@@ -12,6 +12,16 @@ pub(crate) struct SourceList<'l, Data> {
     sources: Vec<SourceEntry<'l, Data>>,
 }
 
+#[cfg(calloop_verif)]
+impl<Data> SourceList<'_, Data> {
+    pub(crate) fn verif_slots(&self) -> Vec<(usize, bool)> {
+        self.sources
+            .iter()
+            .map(|slot| (usize::from(slot.token), slot.source.is_some()))
+            .collect()
+    }
+}
+
 impl<'l, Data> SourceList<'l, Data> {
     pub(crate) fn new() -> Self {
         SourceList {
